@@ -5,7 +5,7 @@
    C15/Model.v that the correspondence check executes.  Every statement holds
    for every scalar type (reals and binary64 alike) and every environment. *)
 From Coq Require Import List NArith ZArith Bool String Ascii Reals.
-From T4V Require Import Base.Str Base.Scalar C15.Model C15.Proofs.
+From T4V Require Import Base.Str Base.Scalar C15.Model C15.Proofs C15.Canon C15.CanonProofs.
 Import ListNotations.
 Open Scope string_scope.
 
@@ -171,6 +171,40 @@ Theorem C15_like_equals_expanded : forall (T : Type) (SC : Scalar T) (e : env (T
    end).
 Proof. exact @like_equals_expanded_full. Qed.
 Print Assumptions C15_like_equals_expanded.
+
+(* the card of the property text, literally: [canon_card] builds, from the text
+   "card that n stands for, then the BUT texts", the explicit card with every
+   keyword written once — material words from MAT / RHO or copied (a void card
+   has no density), one "imp:<particle> <value>" per particle with the last
+   value, the last FILL (with its transformation), LAT, TRCL and U groups — and
+   that card, as text, is parsed to the same cell as the LIKE card.  ([canon_card]
+   is undefined when the card cannot be written, e.g. MAT on a void base without
+   RHO, or an unread keyword with a numeric value such as VOL=3: gap named in
+   notes/C15.md.) *)
+Theorem C15_expansion_card : forall (T : Type) (SC : Scalar T) (e : env (T:=T)) (rank : nat)
+    (lat : option (list (Z * Z))) (x : card) (w : wcard) (c : cell (T:=T)),
+  canon_card SC e x = Ok w -> worker SC e rank lat x = Ok c ->
+  worker SC e rank lat (card_text w) = Ok c /\ worker_w SC e rank lat w = Ok c.
+Proof. exact @canon_card_parses. Qed.
+Print Assumptions C15_expansion_card.
+
+Theorem C15_like_expansion_card : forall (T : Type) (SC : Scalar T) (e : env (T:=T)) (tbl : table)
+    (rank : nat) (lat : option (list (Z * Z))) (mat0 g0 o : string) (n : Z) (d : nat)
+    (x : card) (w : wcard) (c : cell (T:=T)),
+  search_like (lower g0) = Some n -> denotes tbl n d x ->
+  canon_card SC e (apply_but x o) = Ok w ->
+  parse_one_cell SC (List.length tbl) e tbl rank lat (mat0, g0, o) = Ok c ->
+  worker SC e rank lat (card_text w) = Ok c /\ is_explicit (card_text w).
+Proof. exact @like_canon_card. Qed.
+Print Assumptions C15_like_expansion_card.
+
+Example C15_example_expansion_card :
+  option_map (@card_text)
+    (match canon_card RS (xenv 0%R 1%R)
+             (apply_but (" 1 -1.0", " -1 ", x_ox) " rho = -2.5 *TRCL=( 0 )") with
+     | Ok w => Some w | Err _ => None end) =
+  Some ("2 -2.5", " -1 ", "imp:n 1 *trcl 0").
+Proof. exact (example_canon RS 0%R 1%R). Qed.
 
 (* BUT MAT=0 (fix ac9102a): with MAT=m in the BUT list, int(m) = 0, the copy is
    the cell of the explicit void card: material token m, no density, the other
